@@ -114,6 +114,7 @@ type Sim struct {
 	capHit    string
 	deferred  int
 	sp        bool
+	gate      chan struct{}
 
 	// clients
 	bases    []*mqtt.BaseClient // all BaseClients created (index = conn-1)
@@ -142,6 +143,7 @@ type opState struct {
 	returned  bool
 	deferred  int
 	sp        bool
+	gate      chan struct{}
 	err       error
 }
 
@@ -350,9 +352,20 @@ func (s *Sim) runRoot(res *Result) {
 	// events and library timers (whole microseconds) off the same instant.
 	idx := 0
 	resid := func() int64 { idx++; return int64(1 + idx%997) }
+	gates := map[int64]chan struct{}{}
 	for i := range sc.Ops {
 		i := i
 		s.opState = append(s.opState, &opState{})
+		if s.race && sc.Ops[i].OnDial == 0 && sc.Ops[i].Actor >= 0 {
+			// engine R: all ops of one instant start together, behind a gate that
+			// opens once every one of them has its goroutine
+			g := gates[sc.Ops[i].AtUs]
+			if g == nil {
+				g = make(chan struct{})
+				gates[sc.Ops[i].AtUs] = g
+			}
+			s.opState[i].gate = g
+		}
 		if sc.Ops[i].OnDial > 0 {
 			continue // released by the dialer
 		}
@@ -390,6 +403,10 @@ func (s *Sim) runRoot(res *Result) {
 		}
 		i := i
 		s.at(us(o.AtUs)+resid(), "script", func() { s.runScript(i) })
+	}
+	for at, g := range gates {
+		g := g
+		s.at(us(at)+998, "gate", func() { close(g) })
 	}
 	s.at(us(sc.HorizonUs)+resid(), "horizon", func() {
 		s.faultsOff.Store(true)
@@ -504,7 +521,7 @@ func (s *Sim) newConn(k int) *Conn {
 	for len(s.conns) < k {
 		s.conns = append(s.conns, nil)
 	}
-	c := &Conn{s: s, k: k}
+	c := &Conn{s: s, k: k, dropped: map[int]bool{}}
 	c.cond = sync.NewCond(&c.mu)
 	s.conns[k-1] = c
 	return c
